@@ -217,8 +217,7 @@ def arguments(spec_args, values, legacy=False, single_bits=None, epoch_of=None):
             chunk, bits = bits[:8], bits[8:]
             octet = 0
             for i, b in enumerate(chunk):
-                if b:
-                    octet = octet + (1 << i)
+                octet = octet + b * (1 << i)     # arithmetic, no branching on the flag value
             out = out + [octet]
 
     for (name, wtype, _), v in zip(spec_args, values):
